@@ -8,6 +8,7 @@ package collector
 // limiter LTS must accept (Limiter.accepts), whatever the goroutine schedule was.
 
 import (
+	"reflect"
 	"encoding/json"
 	"fmt"
 	"io/ioutil"
@@ -324,8 +325,7 @@ func c18RunScenario(sc c18Scenario, settleDeadline time.Duration) c18Obs {
 	obs.Outcomes = append([]string{}, r.outcome...)
 	obs.MaxRunning = r.maxcur
 	if lc, ok := client.(*limitClient); ok {
-		obs.SemLen = len(lc.semaphore)
-		obs.SemCap = cap(lc.semaphore)
+		obs.SemLen, obs.SemCap, _ = c18Probe(lc)
 	} else {
 		obs.SemLen, obs.SemCap = -1, -1
 		obs.Note += "NewLimitClient did not return a *limitClient; "
@@ -341,6 +341,24 @@ type c18NewClientObs struct {
 	SemCap      int   `json:"sem_cap"`
 	SemLen      int   `json:"sem_len"`
 	TimeoutOut  int64 `json:"timeout_out_ns"`
+}
+
+// c18Probe reads the limiter's token channel (length, capacity) and its time-out without naming the fields: the first
+// channel-typed field and the first time.Duration field of the struct (a rename of unexported fields is harmless)
+func c18Probe(lc *limitClient) (length, capacity int, timeout int64) {
+	length, capacity, timeout = -1, -1, -1
+	v := reflect.ValueOf(lc).Elem()
+	durT := reflect.TypeOf(time.Duration(0))
+	for i := 0; i < v.NumField(); i++ {
+		f := v.Field(i)
+		if f.Kind() == reflect.Chan && length < 0 {
+			length, capacity = f.Len(), f.Cap()
+		}
+		if f.Type() == durT && timeout < 0 {
+			timeout = f.Int()
+		}
+	}
+	return
 }
 
 func TestVerifC18(t *testing.T) {
@@ -382,7 +400,7 @@ func TestVerifC18(t *testing.T) {
 			o.Err = true
 		} else if lc, ok := c.(*limitClient); ok {
 			o.Limited = true
-			o.SemCap, o.SemLen, o.TimeoutOut = cap(lc.semaphore), len(lc.semaphore), int64(lc.timeout)
+			o.SemLen, o.SemCap, o.TimeoutOut = c18Probe(lc)
 		}
 		out.NewClient = append(out.NewClient, o)
 	}
